@@ -36,12 +36,17 @@ CLAIM = ('Proved in Coq for the model, END TO END for Numbers naming with KeepLo
          'file, the newest plain files and the next complete archives of exactly what they replace exist, survivors are a suffix '
          'of what was written, closed / current are what the same history leaves without cleanup, and the oracles accept the '
          "reader's view (C07_timestampsdirect_cleanup, _no_panic, _vs_never, _oracles; C07_timestamps_cleanup, _no_panic, "
-         "_vs_never, _oracles). 'Clock not going backwards' is necessary: after the clock is set back, the TimestampsDirect file "
-         'being written lists behind an older file and KeepLogFiles(1) removes it (TsdCleanup.clock_backwards_current_removed, '
-         'evaluated in Coq) - confirmed on the code, recorded as the known finding clock-set-back-direct-timestamps (DESIGN.md '
-         'section 9) and printed by this check on every run from a corpus case. NumbersDirect with the background thread and '
+         "_vs_never, _oracles). These proofs found a defect: 'clock not going backwards' was necessary even for the last clause "
+         '- after the clock is set back (the end of daylight saving time in local time) the TimestampsDirect file opened by the '
+         'next rotation sorts behind its predecessors, and the cleanup, which protected the file being written only by its '
+         'position in the listing, removed or compressed it; confirmed on the code (records lost silently), repaired (f4bce48: '
+         'the cleanup is handed the current file and skips it), and now proved without any hypothesis on the clock or the order '
+         'of the listing: C07_cleanup_spares_current (every world, listing order, limits, result) and C07_current_never_cleaned '
+         '(every history of a TimestampsDirect writer with a cleanup strategy: the file being written exists, is plain and holds '
+         "what was written to it since it was opened). What stays tied to the clock is the retention statement ('exactly the "
+         "most recent ones'): time-stamp names order the files by their stamps. NumbersDirect with the background thread and "
          'with foreign files: C07_numbersdirect_cleanup_bg and C14. ')
-THEOREMS = ["C07_numbers_cleanup", "C07_numbers_cleanup_vs_never", "C07_listing_sorted", "C07_listing_restart_order", "C07_listing_plain_last", "C07_compress_lossless", "C07_cleanup_keeps_newest", "C07_tail_sound", "C07_limits_sound", "C07_numbers_cleanup_bg", "C07_numbersdirect_cleanup", "C07_numbersdirect_cleanup_vs_never", "C07_numbersdirect_cleanup_no_panic", "C07_listing_number_order", "C07_listing_key_order", "C07_listing_ts", "C07_timestampsdirect_cleanup", "C07_timestampsdirect_cleanup_no_panic", "C07_timestamps_cleanup", "C07_timestamps_cleanup_no_panic", "C07_timestampsdirect_oracles", "C07_timestamps_oracles", "C07_timestampsdirect_cleanup_vs_never", "C07_timestamps_cleanup_vs_never", "C07_bg_worlds_numbersdirect_cleanup", "C07_numbersdirect_cleanup_bg", "C07_numbersdirect_cleanup_stream_bg", "C07_numbersdirect_cleanup_no_panic_bg"]
+THEOREMS = ["C07_numbers_cleanup", "C07_numbers_cleanup_vs_never", "C07_listing_sorted", "C07_listing_restart_order", "C07_listing_plain_last", "C07_compress_lossless", "C07_cleanup_keeps_newest", "C07_tail_sound", "C07_limits_sound", "C07_numbers_cleanup_bg", "C07_numbersdirect_cleanup", "C07_numbersdirect_cleanup_vs_never", "C07_numbersdirect_cleanup_no_panic", "C07_listing_number_order", "C07_listing_key_order", "C07_listing_ts", "C07_timestampsdirect_cleanup", "C07_timestampsdirect_cleanup_no_panic", "C07_timestamps_cleanup", "C07_timestamps_cleanup_no_panic", "C07_timestampsdirect_oracles", "C07_timestamps_oracles", "C07_timestampsdirect_cleanup_vs_never", "C07_timestamps_cleanup_vs_never", "C07_bg_worlds_numbersdirect_cleanup", "C07_numbersdirect_cleanup_bg", "C07_numbersdirect_cleanup_stream_bg", "C07_numbersdirect_cleanup_no_panic_bg", "C07_cleanup_spares_current", "C07_current_never_cleaned"]
 TRUSTED = ["modelled, not verified: flate2 (validated by decompressing every archive), read_dir, the keyed sort of the listing (modelled as insertion sort by the same key), "
            "the background cleanup thread is modelled as a queue drained at shutdown (interleavings with rotations: not explored here)"]
 ASSUMPTIONS = ["no I/O faults, no kill, no foreign files; the same cleanup strategy in all runs of a history"]
@@ -69,12 +74,8 @@ def corpus():
                 pre = ["XC:%s:0:%s" % (g.hx(c.name(b"r%05d" % i)), g.hx(b"old%d\n" % i)) for i in (99998, 99999)]
                 out.append("flw %d 0 ; %s SN B:%s W:%s W:%s F SN W:%s F SN W:%s S SN" % (
                     g.T0, " ".join(pre), c.token(), g.hx(b"A0aaaa\n"), g.hx(b"B1\n"), g.hx(b"C2cccc\n"), g.hx(b"D3\n")))
-    # KNOWN FINDING (known_findings.jsonl, class clock-set-back-direct-timestamps): TimestampsDirect naming + a cleanup strategy + the
-    # clock set back (what the end of daylight saving time does to local time): the file opened by the next rotation carries an
-    # EARLIER time stamp than the files before it, sorts behind them, and the cleanup removes or compresses the file being written
-    c = g.Cfg(base=b"a", crit="s5", naming="tsd", cleanup="l1")
-    out.append("flw %d 0 ; B:%s W:%s K:5 W:%s F SN K:-3600 W:%s F SN W:%s F SN W:%s S SN" % (
-        g.T0, c.token(), g.hx(b"A0aaaa\n"), g.hx(b"B1bbbb\n"), g.hx(b"C2cccc\n"), g.hx(b"D3\n"), g.hx(b"E4eeee\n")))
+    # (the regression case for fix f4bce48 - the clock set back under TimestampsDirect naming with cleanup - is in C10's corpus: there
+    #  the correspondence decides; the C07 oracles read the files in the order of their time stamps, which a clock step breaks)
     return out
 
 
@@ -93,13 +94,7 @@ def search(rng, tier, disagreeing):
 
 
 def classify(body, impl, verdict):
-    """one recorded finding: the clock set back under a direct time-stamp naming with a cleanup strategy"""
-    toks = body.split(" ; ", 1)[1].split(" ")
-    cfgs = [t[2:].split(",") for t in toks if t.startswith("B:")]
-    back = any(t.startswith("K:-") for t in toks)
-    direct_ts = all(c[7] == "tsd" or (c[7].startswith("cu.") and c[7].split(".")[1] == "~") for c in cfgs)
-    if back and cfgs and direct_ts and all(c[8] != "n" for c in cfgs):
-        return "clock-set-back-direct-timestamps"
+    """no recorded finding is left for this property: every failure is reported"""
     return None
 
 
